@@ -199,3 +199,12 @@ Theorem utf32_to_utf16_pass_matches_source : forall l m fuel, all_lt 4294967296 
       utf16_convert_from_utf32 d l m = Ok (e, ((fst d - length ws)%nat, rev (map ST.Utf.LoopBridgeWrite.unit16_of ws) ++ snd d)).
 Proof. exact ST.Utf.LoopBridgeConvert32.utf16_convert_from_utf32_matches_source. Qed.
 Print Assumptions utf32_to_utf16_pass_matches_source.
+
+Theorem utf32_to_utf8_pass_matches_source : forall l m fuel, all_lt 4294967296 l = true -> (length l < fuel)%nat ->
+  exists e ws,
+    ST.Gen.Leaf.src_utf8_convert_from_utf32 fuel (ST.Utf.LoopBridge.arr32 l) (Z.of_nat (length l)) (ST.Utf.LoopBridgeConvert32.mode_code m)
+      = Some (Z.of_N (cerr_code e), ws) /\
+    forall d : dst, (length ws <= fst d)%nat ->
+      utf8_convert_from_utf32 d l m = Ok (e, ((fst d - length ws)%nat, rev (map ST.Utf.LoopBridgeWrite.byte_of ws) ++ snd d)).
+Proof. exact ST.Utf.LoopBridgeConvert32.utf8_convert_from_utf32_matches_source. Qed.
+Print Assumptions utf32_to_utf8_pass_matches_source.
